@@ -228,12 +228,11 @@ func runC17(res *lib.Result, tier string, seed int64, args []string) error {
 			res.AddViolation("model-vs-spec", "theorem flags_exact contradicted by evaluation", line, false)
 		}
 	}
-	// malformed regex: separate stream, known finding K4
+	// malformed regex: separate stream (former finding K4, repaired by a72bfd6: must not panic again)
 	func() {
 		defer func() {
 			if rec := recover(); rec != nil {
-				res.HitKnown("C17-K4", "a malformed regular expression in IgnoreFileOrDirError reaches regexp.MustCompile and panics", "IgnoreFileOrDirError=[\"a[.lua\"]")
-				res.Dist("hit.C17-K4")
+				res.AddViolation("crash-or-timeout", fmt.Sprintf("a malformed regular expression in IgnoreFileOrDirError panics: %v", rec), "IgnoreFileOrDirError=[\"a[.lua\"]", false)
 			}
 		}()
 		common.GlobalConfigDefautInit()
